@@ -36,10 +36,12 @@ func init() {
 	}})
 }
 
-func (p *c05) HangIsViolation() bool            { return true }
-func (p *c05) Shards(tier string) int            { return 16 }
-func (p *c05) CaseTimeoutSec(tier string) int    { return 20 }
-func (p *c05) RequiredCounters(string) []string { return []string{"canary-runs", "class:value-grid", "class:mutation", "class:blob"} }
+func (p *c05) HangIsViolation() bool          { return true }
+func (p *c05) Shards(tier string) int         { return 16 }
+func (p *c05) CaseTimeoutSec(tier string) int { return 20 }
+func (p *c05) RequiredCounters(string) []string {
+	return []string{"canary-runs", "class:value-grid", "class:mutation", "class:blob"}
+}
 
 // ---- value shapes
 
@@ -62,13 +64,14 @@ type c05PtrEmb struct {
 }
 type c05Meth struct{ V int }
 
-func (m c05Meth) Val() int                 { return m.V }
-func (m *c05Meth) Ptr() string             { return "ptr" }
-func (m c05Meth) WithArg(a int) int        { return a }
-func (m c05Meth) Two() (int, error)        { return 1, nil }
-func (m c05Meth) String() string           { return "meth" }
-func (m c05Meth) NilResult() interface{}   { return nil }
-func (m c05Meth) Nothing()                 {}
+func (m c05Meth) Val() int               { return m.V }
+func (m *c05Meth) Ptr() string           { return "ptr" }
+func (m c05Meth) WithArg(a int) int      { return a }
+func (m c05Meth) Two() (int, error)      { return 1, nil }
+func (m c05Meth) String() string         { return "meth" }
+func (m c05Meth) NilResult() interface{} { return nil }
+func (m c05Meth) Nothing()               {}
+
 type c05Str string
 type c05IntSlice []int
 type c05StrMap map[string]string
@@ -179,8 +182,25 @@ func c05Guarded(rec *core.Recorder, class, what string, cs any, f func()) bool {
 	return true
 }
 
-// parse+render one source with one context; returns whether parsing succeeded
+// c05Pad pushes a source over the 4096-byte threshold at which the engine switches to its second (large-template) tokenizer.
+var c05Pad = strings.Repeat("pad ", 1030)
+
+// parse+render one source with one context; the same source is then exercised again on the large-template tokenizer path
+// (padded with plain text before or after it), except for the value grid where the construct, not the tokenizer, is the subject.
 func c05Exercise(rec *core.Recorder, class string, e *twig.Engine, src string, ctx map[string]interface{}, cs any) {
+	c05ExerciseOne(rec, class, e, src, ctx, cs)
+	if class == "value-grid" && core.Hash64(src)%8 != 0 || len(src) > 4096 {
+		return
+	}
+	rec.Count("large-tokenizer-path", 1)
+	padded := c05Pad + src
+	if core.Hash64(src, "side")%2 == 0 {
+		padded = src + c05Pad
+	}
+	c05ExerciseOne(rec, class, e, padded, ctx, map[string]any{"padded": padded, "unpadded-case": cs})
+}
+
+func c05ExerciseOne(rec *core.Recorder, class string, e *twig.Engine, src string, ctx map[string]interface{}, cs any) {
 	var t *twig.Template
 	var err error
 	if !c05Guarded(rec, class, "ParseTemplate", cs, func() { t, err = e.ParseTemplate(src) }) {
@@ -199,8 +219,8 @@ func c05Exercise(rec *core.Recorder, class string, e *twig.Engine, src string, c
 			rec.Count("rendered-ok", 1)
 		}
 	})
-	if rec.Evals%3 == 0 {
-		// the registered path and the writer path
+	if core.Hash64(src)%3 == 0 || os.Getenv("VERIF_ALLPATHS") != "" {
+		// the registered path and the writer path (chosen by the source, not by the run's history, so that a replay takes the same path)
 		c05Guarded(rec, class, "RegisterString+RenderTo", cs, func() {
 			if e.RegisterString("case_tpl", src) == nil {
 				e.RenderTo(io.Discard, "case_tpl", ctx)
@@ -514,7 +534,7 @@ func c05Pathological() []string {
 		rep("{% set x = 1 %}", 5000),
 		rep("{# c #}", 10000),
 		rep("{{", 1000), rep("}}", 1000), rep("{%", 1000), rep("%}", 1000), rep("{#", 1000), rep("{{-", 500), rep("-%}", 500),
-		"{{", "{%", "{#", "{{ ", "{% ", "{{-", "{%-", "{% %}", "{{ }}", "{%%}", "{{}}", "{##}", "{%-%}", "{{--}}", "{{- -}}", "{% - %}",
+		"{{", "{%", "{#", "{{ ", "{% ", "{{-", "{%-", "{% %}", "{{ }}", "{%%}", "{{}}", "{##}", "{%-%}", "{{-}}", "{#-#}", "{{--}}", "{%--%}", "{#--#}", "{{- -}}", "{% - %}", "{{-}", "{%-%", "x{{-}}y", " {%-%} ", "{{-}}{{-}}", "{{ - }}", "{{-a}}", "{{a-}}", "{%-if a-%}{%-endif-%}",
 		"{% if %}", "{% for %}", "{% for in %}", "{% for x in %}", "{% for , in x %}", "{% set %}", "{% set = %}", "{% set x = %}", "{% block %}", "{% extends %}", "{% include %}", "{% macro %}", "{% macro ( %}", "{% macro m( %}", "{% macro m(a = ) %}",
 		"{% import %}", "{% import 'x' %}", "{% import 'x' as %}", "{% from %}", "{% from 'x' %}", "{% from 'x' import %}", "{% apply %}", "{% verbatim %}", "{% endverbatim %}", "{% do %}", "{% endif %}", "{% else %}", "{% endfor %}", "{% endblock %}", "{% endmacro %}",
 		"{% if a %}{% else %}{% else %}{% endif %}", "{% if a %}{% elseif %}{% endif %}", "{% for i in xs %}{% endif %}", "{% block a %}{% endblock b %}", "{% block a %}{% block a %}{% endblock %}{% endblock %}",
@@ -529,6 +549,10 @@ func c05Pathological() []string {
 		"{% for i in 'abc' %}{% for j in i %}{{ j }}{% endfor %}{% endfor %}", "{% for i in 5 %}{{ i }}{% endfor %}", "{% for i in null %}x{% else %}e{% endfor %}", "{% for loop in xs %}{{ loop }}{% endfor %}", "{% for i in xs %}{% set xs = [] %}{{ i }}{% endfor %}",
 		"{% set loop = 1 %}{% for i in xs %}{{ loop.index }}{% endfor %}{{ loop }}", "{% apply nosuchfilter %}x{% endapply %}", "{% apply upper|lower %}x{% endapply %}", "{% apply slice(1, 2) %}abcdef{% endapply %}",
 		"{% verbatim %}{% endverbatim %}{% endverbatim %}", "{% verbatim %}{{ unclosed {% endverbatim %}", "{% verbatim %}{% verbatim %}{% endverbatim %}", "{% spaceless %}{% endspaceless %}{% endspaceless %}",
+		// extends tags in places where they re-enter the layout that is being rendered
+		"{% extends 'base' %}{% block body %}{% extends 'base' %}{% endblock %}", "{% extends 'base' %}{% block body %}{% extends 'base' %}{% block title %}x{% endblock %}{% endblock %}",
+		"{% block a %}{% extends 'base' %}{% endblock %}", "{% if a %}{% extends 'base' %}{% endif %}", "{% for i in xs %}{% extends 'base' %}{% endfor %}", "{% extends 'base' %}{% block body %}{% include 'base' %}{{ parent() }}{% endblock %}",
+		"{% extends 'base' %}{% block body %}{% block title %}{% extends 'base' %}{% endblock %}{% endblock %}", "{% extends 'base' %}{% extends 'base' %}{% block body %}{% extends 'base' %}{{ parent() }}{% endblock %}",
 		strings.Repeat("x", 4090)+"{{ v", strings.Repeat("x", 4100)+"{{ v", strings.Repeat("x", 4100)+"{{ v }", strings.Repeat("x", 4100)+"{", strings.Repeat("x", 4100)+"{%", strings.Repeat("x", 4100)+"{{ v -}}", strings.Repeat("x", 4100)+"{{- v -", strings.Repeat("x", 4100)+"{#",
 		strings.Repeat("{{ v }}\n", 600)+"{% if", strings.Repeat("é", 2100)+"{{ v }}\\", "\\", "\\{{", "\\{% x", strings.Repeat("\\{{ x }}", 600),
 	)
